@@ -109,6 +109,8 @@ def make_case(rng, i):
             spec["cbs"][c]["script"].pop("sends", None)
     steps = [{"op": "construct", "val": gen.gen_valuation(rng, spec)}, {"op": "activate"}]
     steps += gen.gen_history(rng, spec, rng.randint(4, 14), p_unknown=0.05, p_pick=0.0)
+    if rng.random() < 0.2:
+        steps.insert(rng.randint(2, len(steps)), {"op": "activate"})     # activating again later is a no-op (awaitable in a loop)
     if rng.random() < 0.08:
         # both twins are replaced by their deepcopy / pickle clone at the same point of the history
         steps.insert(rng.randint(2, len(steps)), {"op": "become_clone", "how": rng.choice(["deepcopy", "pickle"])})
